@@ -1,3 +1,59 @@
+/-
+  C12 / C13 at ACTION granularity (Layer B, `CachedModel/LayerB.lean`): QUIESCENCE AND ACKNOWLEDGEMENTS.
+
+  The termination theorem `C18_layerB_every_call_returns` (Terminates.lean) is silent about acknowledgements:
+  `Quiescent` allows a dead worker and never mentions `acks`.  This file connects the two:
+  "every acknowledgement eventually completes" (C12) and "no caller waits for ever" (C13) hold at the end of every
+  maximal internal run — UNLESS THE WORKER HAS DIED, and that exception is real (the known findings that kill the
+  worker: D10's space overflow, the TTL overflow at `store.put`, the `UpdateWeight` overflow).
+
+  Invariants (lemmas in `AcksResolvedLemmas.lean`; all proved for every reachable state of every interleaving)
+    * `ar_PInv`     while the worker lives, a pending cell is the cell of a queued command or of the command in hand
+                    (the converse of `HInv.queued` / `HInv.held` of Order.lean)
+    * `ar_CA`       one client action: no new cell / one new RESOLVED cell (`Rejected(KeyAlreadyExists)` of a put,
+                    `Accepted` of a `put_or_update` that owes no weight) / one new pending cell WITH its queue entry, and
+                    only while the receiver is alive  (`CStep.spot` of Order.lean does not record the status)
+    * `ar_ShutInv`  flag set → the winner of the CAS stands before its `cmd.send`, or `Shutdown` is queued, or the worker
+                    stands at `worker.drain`, or it is dead
+
+  Theorems
+    1  `C12_layerB_pending_iff`                  worker alive: cell `h` pending ↔ `h` queued or in hand
+       `C12_layerB_pending_is_queued_or_in_hand`
+       `C12_layerB_pending_after_death`          worker dead: pending cells = what was queued / in hand when it died
+       `C12_layerB_dead_worker_pending_forever`  … and they stay pending along every run
+    2  `C12_layerB_idle_worker_acks_resolved`    worker at `recv` / `drain`, queue empty → no cell pending
+       `C12_layerB_quiescent_acks_resolved`      Reach, Quiescent, `b.w ≠ .dead` → every cell resolved
+       (`'`: with `b.g.worker ≠ .dead`; `C12_layerB_quiescent_every_cell_resolved`: for every index of `acks`)
+    3  `C12_layerB_ack_stable`                   along every run: cells are not removed, resolved cells do not change
+       `C12_layerB_every_ack_resolves`           the run-level statement, under the hypotheses of
+                                                 `C18_layerB_every_call_returns`
+    4  `C13_layerB_draining_worker_answers_all`  from `worker.drain` on (the worker cannot die there): every maximal run
+                                                 ends with all cells resolved, the pending ones with `ShuttingDown`
+       `C13_layerB_shutdown_command_on_its_way`, `C13_layerB_quiescent_after_shutdown`,
+       `C13_layerB_after_shutdown_every_ack_resolves`
+                                                 flag set + quiescent + worker not dead → worker at `worker.drain`,
+                                                 all cells resolved
+    5  `C12_layerB_closed_acks_resolve`          with `C17_layerB_closed`: under the closed hypotheses on the inputs the
+                                                 worker is alive, so quiescent → all resolved
+    6  witnesses: `C12_layerB_two_puts_witness` (two queued puts, `[Pending, Pending]` → `[Accepted, Accepted]`),
+       `C12_layerB_ack_pending_forever_needs_dead_worker` (the counterexample, below)
+    7  `C18_layerB_issue_raises_mu_boundedly`, `C18_layerB_tick_raises_mu_boundedly` (exact increments of `mu`),
+       `C18_layerB_every_request_returns_within` (any request: back at `.idle` within `tm_own pc` own actions)
+
+  Hypotheses: reachability; for the run-level statements those of `C18_layerB_every_call_returns` (`seeds ≠ []`,
+  `0 < cmdCap`, `0 < bufChanCap`, `0 < poolSize`); and "the worker is not dead" (`b.w ≠ .dead`, equivalently
+  `b.g.worker ≠ .dead`: `deadW_reach`).
+
+  The counterexample (not a new finding — the consequence of D10, `C17_layerB_closed_needs_NoSpaceOverflow`): after
+  `spaceOverflowRun ++ [consumer]` from `c17BBig 2` the state is `Quiescent`, the worker is dead and
+  `acks = [Accepted, Accepted, Pending]`; the third cell stays pending along every run.
+
+  About `Quiescent`'s clause "`queue = [] ∨ b.w.exited`": `WPc.exited` is true of `.dead` only.  The model has no
+  position "exited after draining": after `Shutdown` the worker stands at `worker.drain` for good and answers every
+  later command `ShuttingDown` (`sendAct` refuses only when `g.worker = .dead`).  So no path leaves a queued command
+  unanswered with a live worker.  (This is the crate's behaviour as recorded in DESIGN.md, seeded change C12e: after
+  `shutdown()` has returned the worker is still alive, blocked at its queue.)
+-/
 import CachedProofs.LayerB.AcksResolvedLemmas
 
 namespace Cached
@@ -280,13 +336,13 @@ theorem C13_layerB_after_shutdown_every_ack_resolves {cfg : Cfg} {now : Nat} {se
     (hs : b.g.shutting = true) (hrun : InternalRun b l b') (hmax : InternalStuck b') :
     Quiescent b' ∧ (∀ i, i < b.cl.length → b'.cl[i]? = some .idle) ∧ b'.g.shutting = true ∧
     (b'.w ≠ .dead → b'.w = .drain ∧ ∀ h, h < b'.g.acks.length → ∃ st, b'.g.acks[h]? = some st ∧ st ≠ .pending) := by
-  obtain ⟨_, hq, hidle⟩ := C18_layerB_every_call_returns hseeds hcmd hbuf hpool hr hrun hmax
-  have hr' := hrun.reach hr
   have hs' : b'.g.shutting = true := by
-    clear hmax hq hidle hr'
+    clear hmax
     induction hrun with
     | nil b => exact hs
     | cons _ hstep _ ih => exact ih (.step hr hstep) (stepB_shutting_mono hstep hs)
+  obtain ⟨_, hq, hidle⟩ := C18_layerB_every_call_returns hseeds hcmd hbuf hpool hr hrun hmax
+  have hr' := hrun.reach hr
   exact ⟨hq, hidle, hs', fun hd => ⟨(C13_layerB_quiescent_after_shutdown hr' hq hs' hd).1,
     C12_layerB_quiescent_every_cell_resolved hr' hq hd⟩⟩
 
@@ -384,6 +440,138 @@ theorem C12_layerB_ack_pending_forever_needs_dead_worker :
     exact ⟨b, hr, h1, quiescent_stuck h1, h2, h3, h4, hp,
       fun l b' hl => ((C12_layerB_dead_worker_pending_forever l hr h2 hl).2 2).mpr hp⟩
   · cases h
+
+/-! ## 7  the environment raises `mu` by a bounded amount; every request returns within `tm_own` own actions -/
+
+/-- **C18 — a new request raises the measure by an explicit, finite amount.**  `issue i r` (the only effect: client
+    `i` goes from `.idle` to `.start r`) adds to `mu` exactly
+      * `tm_own (.start r)`: the own actions of the call (at most 14; `5·|ks| + 3` for a multi-key read), and
+      * `15 + 5·tm_U b + 10·tm_Q b + 5·tm_ins b.w`: the share of the one command the call may send — the worker's part
+        `tm_Wf q u w = q·(10 + 5·(u + q + ins)) + cur` at `q + 1` instead of `q`,
+    where `tm_Q b ≤ |queue| + |clients|`, `tm_U b ≤ |kw| + |sample in hand|` and `tm_ins b.w ≤ 1`. -/
+theorem C18_layerB_issue_raises_mu_boundedly {b b' : BState} {i : Nat} {r : Req} {o o' : Oracle}
+    (h : stepB b (.issue i r) o = .ok (b', o')) :
+    mu b' = mu b + tm_own (.start r) + (15 + 5 * tm_U b + 10 * tm_Q b + 5 * tm_ins b.w) ∧
+    tm_Q b ≤ b.g.queue.length + b.cl.length ∧ tm_U b ≤ b.g.adm.kw.length + (tm_S b.w).length ∧ tm_ins b.w ≤ 1 ∧
+    (tm_own (.start r) ≤ 14 ∨ ∃ ks iter, r = .mget ks iter ∧ tm_own (.start r) = 5 * ks.length + 3) := by
+  simp only [stepB] at h
+  split at h
+  · rename_i b1 hi
+    simp only [Except.ok.injEq, Prod.mk.injEq] at h
+    obtain ⟨rfl, -⟩ := h
+    obtain ⟨hidle, rfl⟩ := issue_spec hi
+    have hlt := lt_of_getElem? hidle
+    have hget : b.cl[i] = .idle := by
+      have := List.getElem?_eq_getElem hlt
+      rw [hidle] at this
+      simp only [Option.some.injEq] at this
+      exact this.symm
+    have h1 := ar_sum_set tm_own b.cl i (.start r) hlt
+    have h2 := ar_sum_set tm_cmds b.cl i (.start r) hlt
+    have e0 : tm_own CPc.idle = 0 := rfl
+    have c0 : tm_cmds CPc.idle = 0 := rfl
+    have c1 : tm_cmds (CPc.start r) = 1 := rfl
+    rw [hget, e0] at h1
+    rw [hget, c0, c1] at h2
+    have hq : tm_Q (setClient b i (.start r)) = tm_Q b + 1 := by
+      show b.g.queue.length + ((b.cl.set i (.start r)).map tm_cmds).sum = b.g.queue.length + (b.cl.map tm_cmds).sum + 1
+      omega
+    refine ⟨?_, ?_, ?_, ?_, ?_⟩
+    · have hmul : (tm_Q b + 1) * (10 + 5 * (tm_U b + (tm_Q b + 1) + tm_ins b.w)) =
+          tm_Q b * (10 + 5 * (tm_U b + tm_Q b + tm_ins b.w)) +
+            (15 + 5 * tm_U b + 10 * tm_Q b + 5 * tm_ins b.w) := by
+        generalize tm_Q b = q
+        generalize tm_U b = u
+        generalize tm_ins b.w = n
+        have e1 : (q + 1) * (10 + 5 * (u + (q + 1) + n)) = q * (10 + 5 * (u + (q + 1) + n)) +
+            (10 + 5 * (u + (q + 1) + n)) := by rw [Nat.add_mul, Nat.one_mul]
+        have e2 : q * (10 + 5 * (u + (q + 1) + n)) = q * (10 + 5 * (u + q + n)) + q * 5 := by
+          rw [← Nat.mul_add]; congr 1; omega
+        omega
+      have key : mu (setClient b i (.start r)) = ((b.cl.set i (.start r)).map tm_own).sum + b.g.bufq.length +
+          tm_sw b.sw + ((tm_Q b + 1) * (10 + 5 * (tm_U b + (tm_Q b + 1) + tm_ins b.w)) + tm_cur b.w (tm_U b)) := by
+        rw [mu, tm_Wf, hq]; rfl
+      have key0 : mu b = (b.cl.map tm_own).sum + b.g.bufq.length + tm_sw b.sw +
+          (tm_Q b * (10 + 5 * (tm_U b + tm_Q b + tm_ins b.w)) + tm_cur b.w (tm_U b)) := rfl
+      rw [key, key0, hmul]
+      omega
+    · have := ar_sum_cmds_le b.cl
+      simp only [tm_Q]; omega
+    · simp only [tm_U, tm_stale]
+      have := List.countP_le_length (p := fun x : SKey => !(b.g.adm.kw.contains x.id)) (l := tm_S b.w)
+      omega
+    · cases b.w <;> simp [tm_ins]
+    · cases r with
+      | mget ks iter => exact Or.inr ⟨ks, iter, rfl, rfl⟩
+      | _ => left; simp [tm_own]
+  · cases h
+
+/-- **C18 — a sweeper tick raises the measure by `4·(entries of the shard) + 1`** (its action at `sweep.begin`, the
+    other move of the environment that is not free): it takes the lock of the shard of the current second and lists
+    the shard's entries — four actions per entry and `sweep.end` are then left; nothing else changes. -/
+theorem C18_layerB_tick_raises_mu_boundedly {b b' : BState} {v : Option Nat} {o o' : Oracle}
+    (hb : b.sw = .begin) (h : stepB b (.sweeper v) o = .ok (b', o')) :
+    mu b' = mu b + 4 * (b.g.ttl.filter (fun p => p.1.1 == secsOf b.g.now % b.g.cfg.shards)).length + 1 ∧
+    (b.g.ttl.filter (fun p => p.1.1 == secsOf b.g.now % b.g.cfg.shards)).length ≤ b.g.ttl.length := by
+  refine ⟨?_, List.length_filter_le _ _⟩
+  simp only [stepB] at h
+  split at h
+  · rename_i b1 hs
+    simp only [Except.ok.injEq, Prod.mk.injEq] at h
+    obtain ⟨rfl, -⟩ := h
+    simp only [sweeperAct, hb] at hs
+    split at hs
+    · cases hs
+    · simp only [Except.ok.injEq] at hs
+      subst hs
+      unfold sweepNext
+      split
+      · rename_i hnil
+        have hlen := congrArg List.length hnil
+        simp only [List.length_map, List.length_nil] at hlen
+        simp only [mu, tm_Q, tm_U, hb, tm_sw, hlen]
+        omega
+      · have hlen : ((b.g.ttl.filter (fun p => p.1.1 == secsOf b.g.now % b.g.cfg.shards)).map
+            (fun p => (p.1.2, p.2))).length =
+            (b.g.ttl.filter (fun p => p.1.1 == secsOf b.g.now % b.g.cfg.shards)).length := List.length_map _
+        simp only [mu, tm_Q, tm_U, hb, tm_sw, hlen]
+        omega
+  · cases h
+
+/-- **C18, per call, for EVERY request kind** (the existing per-call statements `C18_layerB_get_returns` /
+    `C18_layerB_put_returns` cover `get` and the puts).  A client that stands inside a call — at any position `pc` of
+    any request: put, delete, get, `get_ref`, `total_weight_used`, `put_or_update`, a multi-key read, `shutdown()` — is
+    back at `.idle` in every schedule in which it takes `tm_own pc` of its own actions, whatever the other threads, the
+    clock and the other clients do in between: each own action that answers `.ok` lowers `tm_own` strictly
+    (`ar_own_step`).  `tm_own (.start r)` is at most 14 (`shutdown()`: 14, `put_or_update`: 7, put / get / `get_ref`: 5,
+    delete: 4, `total_weight_used`: 3), and `5·|ks| + 3` for a multi-key read.
+    (Whether the own actions ARE enabled is the other half: `C18_layerB_every_blocked_thread_has_an_enabled_path`.) -/
+theorem C18_layerB_every_request_returns_within {b b' : BState} {i : Nat} {pc : CPc} (hpc : b.cl[i]? = some pc)
+    (hin : pc ≠ .idle) (l : List (Act × Oracle)) (hrun : runB b l = .ok b') (hfair : tm_own pc ≤ ownActs i l) :
+    ∃ l1 l2 b1, l = l1 ++ l2 ∧ runB b l1 = .ok b1 ∧ b1.cl[i]? = some .idle :=
+  returns_within tm_own i rfl (fun h1 h2 h3 => ar_own_step h1 h2 h3) l hpc (fun h0 => hin (ar_own_zero h0)) hrun
+    hfair
+
+/-- the bound on the own actions of a call, by request kind -/
+theorem C18_layerB_own_actions_bound (r : Req) :
+    tm_own (.start r) ≤ 14 ∨ ∃ ks iter, r = .mget ks iter ∧ tm_own (.start r) = 5 * ks.length + 3 := by
+  cases r with
+  | mget ks iter => exact Or.inr ⟨ks, iter, rfl, rfl⟩
+  | _ => left; simp [tm_own]
+
+/-- non-vacuity: a `shutdown()` issued in the initial state returns after its 12 own actions (`tm_own = 14` bounds
+    them), with the worker and the consumer taking their `Shutdown` in between -/
+example :
+    (match stepB (BState.init cfgEx 0 [1, 2, 3, 4] 2) (.issue 0 .shutdown) noO with
+     | .ok (b, _) =>
+       (match b.cl[0]? with | some pc => decide (tm_own pc = 14) | none => false) &&
+       (let l : List (Act × Oracle) :=
+          List.replicate 4 (.client 0, noO) ++ [(.worker, noO), (.consumer, noO)] ++ List.replicate 8 (.client 0, noO)
+        decide (ownActs 0 l = 12) &&
+        (match runB b l with
+         | .ok b' => (match b'.cl[0]?, b'.w with | some CPc.idle, WPc.drain => decide (Quiescent b') | _, _ => false)
+         | _ => false))
+     | _ => false) = true := by decide
 
 end B
 end Cached
